@@ -22,6 +22,15 @@ def eval_guard(cond, val):
         return all(eval_guard(c, val) for c in cond.children)
     if isinstance(cond, LogicalOr):
         return any(eval_guard(c, val) for c in cond.children)
+    from pymbolic.primitives import Comparison
+    if isinstance(cond, Comparison):
+        # numeric atoms: val maps the variable names to floats (NaN included); constants are numbers
+        import operator
+        def num(x):
+            return float(val[x.name]) if isinstance(x, Variable) else float(x)
+        op = {"<": operator.lt, "<=": operator.le, ">": operator.gt, ">=": operator.ge, "==": operator.eq,
+              "!=": operator.ne}[cond.operator]
+        return bool(op(num(cond.left), num(cond.right)))
     raise Opaque(f"unsupported guard {cond!r}")
 
 
